@@ -217,24 +217,23 @@ Theorem C09_vi_dd_lines : forall s arg,
 Proof. exact vi_dd_exact. Qed.
 Print Assumptions C09_vi_dd_lines.
 
-(* visual block (after fixes e0cf816 + f3ffc71): the operators d / y / "rd / "ry
-   (TextObject.cut) store exactly the block that x (Buffer.cut_selection)
-   stores, for every text and every two distinct corners.  (Was refuted: C09-F3.) *)
+(* visual block (after fixes e0cf816 + f3ffc71 + 0578190): the operators d / y /
+   "rd / "ry (TextObject.cut) store exactly the block that x
+   (Buffer.cut_selection) stores, for every text and every two corners, equal
+   or not.  (Was refuted: C09-F3, then C09-F5 for a one-cell block.) *)
 Theorem C09_vi_visual_block_operator : forall t cur orig nd data,
-  orig <> cur ->
   tobj_cut (mkdoc t cur) (orig - cur) 0 TBLOCK = Some (nd, data) ->
   data = snd (doc_cut_selection (mkdoc t cur) (orig, BLOCK) true).
 Proof. exact visual_block_operator_stores_block. Qed.
 Print Assumptions C09_vi_visual_block_operator.
 
-(* ... the hypothesis orig <> cur is needed: a block of one cell is an "empty
-   range" for TextObject.cut, so d / y do nothing while x cuts it (finding C09-F5) *)
-Theorem C09_vi_visual_block_single_cell_refuted :
-  exists s sel, Inv (sb s) /\ snd sel = BLOCK /\ fst sel = bcur (sb s) /\
-    sring (snd (vi_visual s sel 1 0)) = sring s /\
-    ctext (snd (doc_cut_selection (cur_doc s) sel true)) <> [].
-Proof. exact visual_block_single_cell_refuted. Qed.
-Print Assumptions C09_vi_visual_block_single_cell_refuted.
+(* the one-cell block of the former finding C09-F5: "abc", C-v y at 0 stores "a" *)
+Example C09_vi_visual_block_single_cell :
+  let s := mkst (mkbuf [97; 98; 99] 0) None [] None 0 [] true in
+  ctext (ring_get (sring (snd (vi_visual s (0, BLOCK) 1 0)))) = [97] /\
+  ctext (snd (doc_cut_selection (cur_doc s) (0, BLOCK) true)) = [97].
+Proof. exact visual_block_single_cell_example. Qed.
+Print Assumptions C09_vi_visual_block_single_cell.
 
 (* the hypotheses are satisfiable: C-k on "ab\ncd" at 0 kills "ab" *)
 Example C09_example_kill_line :
